@@ -563,6 +563,9 @@ func c15Diff(c *core.Ctx, ld *c15Loaded, ref *c15Ref, kind string) {
 	c.Cover("diff_ctx_kinds", kind)
 	obs, ip, cx := ld.exec(kind, 0, false, ld.cs.Buffered, 0, nil, c15Budget)
 	cx.cleanup()
+	if c15WaitDelayArtefact(c, &obs) {
+		return
+	}
 	if obs.sig() == ref.obs.sig() {
 		if ref.obs.out.Steps > 0 {
 			c.NonTrivial("diff|" + kind + "|" + cs.Src + "|" + strconv.Itoa(cs.NRec))
@@ -575,6 +578,9 @@ func c15Diff(c *core.Ctx, ld *c15Loaded, ref *c15Ref, kind string) {
 			ip.ResetVars()
 			ip.ResetRand()
 			o3, _, _ := ld.exec("", 0, false, ld.cs.Buffered, 0, ip, c15Budget)
+			if c15WaitDelayArtefact(c, &o3) {
+				return
+			}
 			if o3.sig() != ref.obs.sig() {
 				c.Violation("reuse-after-unfired-context", cs.Construct+":"+kind, fmt.Sprintf("after ExecuteContext returned (%s context, never fired during the call, cancelled afterwards), Execute on the same Interpreter differs from a fresh Execute", kind),
 					core.Clip(ref.obs.sig(), 1500), core.Clip(o3.sig(), 1500), cs)
@@ -599,6 +605,17 @@ func c15Diff(c *core.Ctx, ld *c15Loaded, ref *c15Ref, kind string) {
 	}
 	c.Violation("never-cancelled-differs", cs.Construct+":"+kind, fmt.Sprintf("ExecuteContext with a %s context that is never cancelled differs from Execute", kind),
 		core.Clip(ref.obs.sig(), 1500), core.Clip(obs.sig(), 1500), cs)
+}
+
+// c15WaitDelayArtefact: goawk gives os/exec's copier of a child's output 250 ms (WaitDelay)
+// after the child's exit; on an overloaded machine that expires (system() = -1, a message on
+// the error stream). A wall-clock effect that has nothing to do with contexts: not judged.
+func c15WaitDelayArtefact(c *core.Ctx, o *c15Obs) bool {
+	if strings.Contains(o.out.Stderr, "WaitDelay expired") {
+		c.Count("waitdelay_timing_artefacts_not_judged", 1)
+		return true
+	}
+	return false
 }
 
 // c15Placement runs one cancelled execution of a template program and judges it.
@@ -1040,7 +1057,14 @@ func init() {
 					continue
 				}
 				ref, ok := c15Reference(c, ld)
+				for try := 0; ok && try < 5 && c15WaitDelayArtefact(c, &ref.obs); try++ {
+					ref, ok = c15Reference(c, ld) // an overloaded machine: take the reference again
+				}
 				if !ok {
+					continue
+				}
+				if strings.Contains(ref.obs.out.Stderr, "WaitDelay expired") {
+					c.Count("subprocess_programs_skipped_waitdelay", 1)
 					continue
 				}
 				if strings.Contains(ref.obs.out.Stdout, "BAD") || ref.obs.out.Err != "" {
